@@ -271,3 +271,571 @@ def desugar_with(tree):
                 n.func.id in cands:
             left.add(n.func.id)
     return {name for name in used if name not in left}
+
+
+# ---------------------------------------------------------------------- N2
+"""N2  Calls of helper functions that do not exist in the reference tree
+(dtverif/inventory.json: the functions of the pinned source) are inlined
+at their call sites: a maintainer who extracts a helper, merges two
+siblings into one, or splits a function into phases leaves the analysed
+unit unchanged.  The rewrite is semantics preserving under the conditions
+checked below; when one fails the call is left alone.
+
+  * the helper is a plain function of the module, a method of the caller's
+    class called through `self.`, or a function nested in the caller;
+  * it has no *args / **kwargs, does not yield, is not recursive, declares
+    no global / nonlocal;
+  * the call is the whole right-hand side of an assignment, the operand of
+    a return, an expression statement, or the left-most operand of an `if`
+    test (hoisted in front of the `if`); helpers consisting of a single
+    `return <expr>` are substituted anywhere their arguments allow;
+  * parameters are replaced by the argument when that is a plain name /
+    constant / self.attr that the helper does not re-bind, otherwise bound
+    to a fresh local first; the helper's locals are renamed apart;
+  * `return`s are turned into assignments of a result variable by nesting
+    the rest of the body into the else branch of guard clauses; helpers
+    whose control flow does not allow that are not inlined.
+"""
+
+import json
+import os
+
+_INV = None
+
+
+def inventory():
+    global _INV
+    if _INV is None:
+        p = os.path.join(os.path.dirname(os.path.abspath(__file__)),
+                         'inventory.json')
+        with open(p) as fh:
+            _INV = {k: set(v) for k, v in json.load(fh).items()}
+    return _INV
+
+
+class _Cannot(Exception):
+    pass
+
+
+def _always_exits(stmts):
+    """Does every path through stmts end in return / raise?"""
+    for st in stmts:
+        if isinstance(st, (ast.Return, ast.Raise)):
+            return True
+        if isinstance(st, ast.If) and st.orelse and \
+                _always_exits(st.body) and _always_exits(st.orelse):
+            return True
+        if isinstance(st, ast.Try) and not st.finalbody:
+            if _always_exits(st.body + st.orelse) and all(
+                    _always_exits(h.body) for h in st.handlers):
+                return True
+    return False
+
+
+def _has_return(stmts):
+    for st in stmts:
+        for x in ast.walk(st):
+            if isinstance(x, ast.Return):
+                return True
+    return False
+
+
+def _lower_returns(stmts, res):
+    """Rewrite a statement list so that it assigns `res` instead of
+    returning.  Raises _Cannot for shapes not handled."""
+    out = []
+    for i, st in enumerate(stmts):
+        rest = stmts[i + 1:]
+        if isinstance(st, ast.Return):
+            val = st.value if st.value is not None else \
+                ast.Constant(value=None)
+            out.append(ast.Assign(
+                targets=[ast.Name(id=res, ctx=ast.Store())], value=val))
+            return out              # the rest is unreachable
+        if not _has_return([st]):
+            out.append(st)
+            continue
+        if isinstance(st, ast.If):
+            t_exit = _always_exits(st.body)
+            f_exit = _always_exits(st.orelse) if st.orelse else False
+            if t_exit and f_exit:
+                out.append(ast.If(test=st.test,
+                                  body=_lower_returns(st.body, res),
+                                  orelse=_lower_returns(st.orelse, res)))
+                return out
+            if t_exit:
+                out.append(ast.If(
+                    test=st.test, body=_lower_returns(st.body, res),
+                    orelse=_lower_returns(st.orelse + rest, res)
+                    or [ast.Pass()]))
+                return out
+            if f_exit:
+                out.append(ast.If(
+                    test=st.test,
+                    body=_lower_returns(st.body + rest, res)
+                    or [ast.Pass()],
+                    orelse=_lower_returns(st.orelse, res)))
+                return out
+            raise _Cannot('conditional return with fall-through')
+        if isinstance(st, ast.Try):
+            # try: return X except ...: raise / return  -- as last statement
+            if rest and not _always_exits([st]):
+                raise _Cannot('try with return followed by code')
+            new = ast.Try(
+                body=_lower_returns(st.body, res),
+                handlers=[ast.ExceptHandler(
+                    type=h.type, name=h.name,
+                    body=_lower_returns(h.body, res) or [ast.Pass()])
+                    for h in st.handlers],
+                orelse=_lower_returns(st.orelse, res),
+                finalbody=st.finalbody)
+            if _has_return(st.finalbody):
+                raise _Cannot('return in finally')
+            out.append(new)
+            if _always_exits([st]):
+                return out
+            continue
+        if isinstance(st, ast.With):
+            if rest and not _always_exits(st.body):
+                raise _Cannot('with containing a return followed by code')
+            out.append(ast.With(items=st.items,
+                                body=_lower_returns(st.body, res)))
+            if _always_exits(st.body):
+                return out
+            continue
+        raise _Cannot(f'return inside {type(st).__name__}')
+    return out
+
+
+class _Rename(ast.NodeTransformer):
+    def __init__(self, subst, rename):
+        self.subst = subst      # param -> expression
+        self.rename = rename    # local -> new name
+
+    def visit_Name(self, node):
+        if node.id in self.subst and isinstance(node.ctx, ast.Load):
+            return copy.deepcopy(self.subst[node.id])
+        if node.id in self.rename:
+            return ast.copy_location(
+                ast.Name(id=self.rename[node.id], ctx=node.ctx), node)
+        return node
+
+    def visit_FunctionDef(self, node):
+        return node             # nested definitions keep their own scope
+
+    visit_AsyncFunctionDef = visit_Lambda = visit_FunctionDef
+
+
+def _simple_arg(a):
+    return isinstance(a, ast.Constant) or isinstance(a, ast.Name) or (
+        isinstance(a, ast.Attribute) and isinstance(a.value, ast.Name)
+        and a.value.id == 'self')
+
+
+def _inlinable(fn):
+    a = fn.args
+    if a.vararg or a.kwarg or a.posonlyargs:
+        return False
+    for x in ast.walk(fn):
+        if isinstance(x, (ast.Yield, ast.YieldFrom, ast.Global,
+                          ast.Nonlocal, ast.Await)):
+            return False
+        if isinstance(x, ast.Call) and isinstance(x.func, ast.Name) and \
+                x.func.id == fn.name:
+            return False
+        if isinstance(x, ast.Call) and isinstance(x.func, ast.Attribute) \
+                and x.func.attr == fn.name and \
+                isinstance(x.func.value, ast.Name) and \
+                x.func.value.id == 'self':
+            return False
+    return True
+
+
+class _Inliner:
+    def __init__(self, tree, modshort, inv):
+        self.tree = tree
+        self.inv = inv.get(modshort)
+        self.uid = 0
+        self.count = 0
+        self.mod_funcs = {}
+        self.cls_methods = {}
+        for n in tree.body:
+            if isinstance(n, ast.FunctionDef):
+                self.mod_funcs[n.name] = n
+            elif isinstance(n, ast.ClassDef):
+                self.cls_methods[n.name] = {
+                    m.name: m for m in n.body
+                    if isinstance(m, ast.FunctionDef)}
+
+    def is_new(self, qual):
+        return self.inv is not None and qual not in self.inv
+
+    # -------------------------------------------------------- resolution
+    def target(self, call, cls, encl_qual, nested):
+        """helper FunctionDef for a call, or None"""
+        f = call.func
+        if isinstance(f, ast.Name):
+            if f.id in nested:
+                fn = nested[f.id]
+                return fn, False
+            fn = self.mod_funcs.get(f.id)
+            if fn is not None and self.is_new(f.id):
+                return fn, False
+        if isinstance(f, ast.Attribute) and isinstance(f.value, ast.Name) \
+                and f.value.id == 'self' and cls is not None:
+            fn = self.cls_methods.get(cls, {}).get(f.attr)
+            if fn is not None and self.is_new(f'{cls}.{f.attr}'):
+                return fn, True
+        return None, False
+
+    # ---------------------------------------------------------- inlining
+    def expand(self, call, fn, is_method, want_result, keep_returns=False,
+               result_name=None):
+        """-> (statements, result expression or None).  keep_returns: the
+        call is the operand of a `return`, the helper's own returns stay;
+        result_name: the call is assigned to this plain name."""
+        if not _inlinable(fn) or any(
+                isinstance(a, ast.Starred) for a in call.args) or any(
+                k.arg is None for k in call.keywords):
+            raise _Cannot('signature')
+        params = [a.arg for a in fn.args.args]
+        defaults = dict(zip(params[len(params) - len(fn.args.defaults):],
+                            fn.args.defaults))
+        kwonly = [a.arg for a in fn.args.kwonlyargs]
+        for p, d in zip(kwonly, fn.args.kw_defaults):
+            if d is not None:
+                defaults[p] = d
+        actual = {}
+        pos = params[1:] if is_method else params
+        if len(call.args) > len(pos):
+            raise _Cannot('too many arguments')
+        for p, a in zip(pos, call.args):
+            actual[p] = a
+        for k in call.keywords:
+            if k.arg in actual or k.arg not in pos + kwonly:
+                raise _Cannot('keyword')
+            actual[k.arg] = k.value
+        for p in pos + kwonly:
+            if p not in actual:
+                if p not in defaults:
+                    raise _Cannot('missing argument')
+                actual[p] = defaults[p]
+        self.uid += 1
+        sfx = f'__{fn.name.strip("_")}{self.uid}'
+        body = [s for s in fn.body
+                if not (isinstance(s, ast.Expr) and
+                        isinstance(s.value, ast.Constant))]
+        stored = set()
+        for s in body:
+            for x in ast.walk(s):
+                if isinstance(x, ast.Name) and isinstance(x.ctx, (ast.Store,
+                                                                  ast.Del)):
+                    stored.add(x.id)
+                if isinstance(x, ast.ExceptHandler) and x.name:
+                    stored.add(x.name)
+        pre = []
+        subst, rename = {}, {}
+        # how often is each parameter read?
+        reads = {}
+        for s in body:
+            for x in ast.walk(s):
+                if isinstance(x, ast.Name) and isinstance(x.ctx, ast.Load):
+                    reads[x.id] = reads.get(x.id, 0) + 1
+        taken = self.caller_names
+        for p in pos + kwonly:
+            a = actual[p]
+            if _simple_arg(a) and p not in stored:
+                subst[p] = a
+            elif isinstance(a, ast.Name) and a.id == p and \
+                    self.target_names == {p}:
+                # x = helper(x, ...): the helper's own `x` is the caller's
+                pass
+            else:
+                nm = p if p not in taken else p + sfx
+                taken.add(nm)
+                pre.append(ast.Assign(
+                    targets=[ast.Name(id=nm, ctx=ast.Store())],
+                    value=copy.deepcopy(a)))
+                if nm != p:
+                    rename[p] = nm
+        for nm in sorted(stored):
+            if nm in rename or nm in subst or nm == 'self' or \
+                    nm in pos + kwonly:
+                continue
+            if nm in taken and self.target_names != {nm}:
+                rename[nm] = nm + sfx
+            taken.add(rename.get(nm, nm))
+        # __traceback_info__ stays what it is
+        rename.pop('__traceback_info__', None)
+        tr = _Rename(subst, rename)
+        body = [tr.visit(copy.deepcopy(s)) for s in body]
+        res = None
+        if keep_returns:
+            stmts = list(body)
+            if not _always_exits(body):
+                stmts.append(ast.Return(value=ast.Constant(value=None)))
+            self.count += 1
+            return pre + stmts, None
+        if len(body) >= 1 and isinstance(body[-1], ast.Return) and \
+                not _has_return(body[:-1]):
+            stmts = body[:-1]
+            res = body[-1].value if body[-1].value is not None \
+                else ast.Constant(value=None)
+        elif not _has_return(body):
+            stmts = body
+            res = ast.Constant(value=None)
+        else:
+            rname = '_r' + sfx
+            if result_name is not None and not any(
+                    isinstance(x, ast.Name) and x.id == result_name
+                    for s_ in body for x in ast.walk(s_)):
+                rname = result_name
+            stmts = _lower_returns(body, rname)
+            if not _always_exits(fn.body):
+                # falling off the end returns None
+                stmts = [ast.Assign(
+                    targets=[ast.Name(id=rname, ctx=ast.Store())],
+                    value=ast.Constant(value=None))] + stmts
+            res = ast.Name(id=rname, ctx=ast.Load())
+        self.count += 1
+        return pre + stmts, res
+
+    def single_expr(self, fn):
+        body = [s for s in fn.body
+                if not (isinstance(s, ast.Expr) and
+                        isinstance(s.value, ast.Constant))]
+        if len(body) == 1 and isinstance(body[0], ast.Return) and \
+                body[0].value is not None:
+            return body[0].value
+        return None
+
+    # ------------------------------------------------------------ driver
+    def run(self):
+        for n in self.tree.body:
+            if isinstance(n, ast.FunctionDef):
+                self.function(n, None, n.name)
+            elif isinstance(n, ast.ClassDef):
+                for m in n.body:
+                    if isinstance(m, ast.FunctionDef):
+                        self.function(m, n.name, f'{n.name}.{m.name}')
+        return self.count
+
+    caller_names = set()
+    target_names = set()
+
+    def function(self, fn, cls, qual):
+        self.caller_names = {x.id for x in ast.walk(fn)
+                             if isinstance(x, ast.Name)} | {
+            a.arg for a in fn.args.args + fn.args.kwonlyargs}
+        nested = {}
+        for st in fn.body:
+            if isinstance(st, ast.FunctionDef) and \
+                    self.is_new(f'{qual}.{st.name}'):
+                nested[st.name] = st
+        for _ in range(3):          # helpers calling helpers
+            before = self.count
+            self.block(fn, 'body', cls, qual, nested)
+            if self.count == before:
+                break
+        for st in fn.body:
+            if isinstance(st, ast.FunctionDef) and st.name not in nested:
+                self.function(st, cls, f'{qual}.{st.name}')
+
+    def block(self, node, fld, cls, qual, nested):
+        lst = getattr(node, fld, None)
+        if not isinstance(lst, list):
+            return
+        i = 0
+        while i < len(lst):
+            st = lst[i]
+            new = None
+            try:
+                new = self.statement(st, cls, qual, nested)
+            except _Cannot:
+                new = None
+            if new is not None:
+                for x in new:
+                    ast.copy_location(x, st)
+                    for y in ast.walk(x):
+                        if not hasattr(y, 'lineno') or True:
+                            if isinstance(y, (ast.stmt, ast.expr)):
+                                y.lineno = st.lineno
+                                y.end_lineno = getattr(st, 'end_lineno',
+                                                       st.lineno)
+                                y.col_offset = st.col_offset
+                                y.end_col_offset = getattr(
+                                    st, 'end_col_offset', 0)
+                lst[i:i + 1] = new
+                i += len(new)
+                continue
+            if isinstance(st, (ast.FunctionDef, ast.ClassDef)):
+                i += 1
+                continue
+            # expression helpers anywhere inside the statement
+            self.expressions(st, cls, qual, nested)
+            for f2 in ('body', 'orelse', 'finalbody'):
+                self.block(st, f2, cls, qual, nested)
+            for h in getattr(st, 'handlers', []) or []:
+                self.block(h, 'body', cls, qual, nested)
+            i += 1
+
+    def statement(self, st, cls, qual, nested):
+        """Replacement statements when `st` is a call of a new helper in
+        one of the supported positions."""
+        call = None
+        mode = None
+        self.target_names = set()
+        if isinstance(st, ast.Assign) and len(st.targets) == 1 and \
+                isinstance(st.targets[0], ast.Name):
+            self.target_names = {st.targets[0].id}
+        if isinstance(st, ast.Assign) and isinstance(st.value, ast.Call):
+            call, mode = st.value, 'assign'
+        elif isinstance(st, ast.Return) and isinstance(st.value, ast.Call):
+            call, mode = st.value, 'return'
+        elif isinstance(st, ast.Expr) and isinstance(st.value, ast.Call):
+            call, mode = st.value, 'expr'
+        elif isinstance(st, ast.If):
+            t = st.test
+            neg = 0
+            while isinstance(t, ast.UnaryOp) and isinstance(t.op, ast.Not):
+                t = t.operand
+                neg += 1
+            if isinstance(t, ast.Compare) and len(t.ops) == 1 and \
+                    isinstance(t.left, ast.Call):
+                call, mode = t.left, 'if'
+            elif isinstance(t, ast.Call):
+                call, mode = t, 'if'
+            elif isinstance(t, ast.BoolOp) and \
+                    isinstance(t.values[0], ast.Call):
+                call, mode = t.values[0], 'if'
+        fn = None
+        if call is not None:
+            fn, is_method = self.target(call, cls, qual, nested)
+        if fn is None and mode in ('assign', 'return', 'expr'):
+            # outer(simple..., HELPER(...), ...): the helper call is an
+            # argument of the statement's call and everything evaluated
+            # before it is a plain name / attribute / constant
+            outer = call
+
+            def plain(e):
+                return isinstance(e, (ast.Constant, ast.Name)) or (
+                    isinstance(e, ast.Attribute) and plain(e.value))
+            if plain(outer.func):
+                for a in outer.args:
+                    if plain(a):
+                        continue
+                    if isinstance(a, ast.Call):
+                        fn, is_method = self.target(a, cls, qual, nested)
+                        if fn is not None and self.single_expr(fn) is None:
+                            stmts, res = self.expand(a, fn, is_method, True)
+                            if not isinstance(res, (ast.Name,
+                                                    ast.Constant)):
+                                self.uid += 1
+                                tmp = f'_t__{fn.name.strip("_")}{self.uid}'
+                                stmts = stmts + [ast.Assign(
+                                    targets=[ast.Name(id=tmp,
+                                                      ctx=ast.Store())],
+                                    value=res)]
+                                res = ast.Name(id=tmp, ctx=ast.Load())
+                            outer.args[outer.args.index(a)] = res
+                            return stmts + [st]
+                    break
+            return None
+        if call is None or fn is None:
+            return None
+        if self.single_expr(fn) is not None and mode == 'if':
+            return None         # handled by expression substitution
+        # arguments must not themselves need hoisting
+        if mode == 'return':
+            stmts, res = self.expand(call, fn, is_method, True,
+                                     keep_returns=True)
+            return stmts
+        rn = None
+        if mode == 'assign' and len(st.targets) == 1 and \
+                isinstance(st.targets[0], ast.Name):
+            rn = st.targets[0].id
+        stmts, res = self.expand(call, fn, is_method, True, result_name=rn)
+        if mode == 'assign':
+            if isinstance(res, ast.Name) and res.id == rn:
+                return stmts
+            return stmts + [ast.Assign(targets=st.targets, value=res)]
+        if mode == 'expr':
+            if isinstance(res, ast.Constant) or isinstance(res, ast.Name):
+                return stmts or [ast.Pass()]
+            return stmts + [ast.Expr(value=res)]
+        # mode == 'if': hoist, then test the result
+        if not isinstance(res, (ast.Name, ast.Constant)):
+            self.uid += 1
+            tmp = f'_t__{fn.name.strip("_")}{self.uid}'
+            stmts = stmts + [ast.Assign(
+                targets=[ast.Name(id=tmp, ctx=ast.Store())], value=res)]
+            res = ast.Name(id=tmp, ctx=ast.Load())
+
+        class _Swap(ast.NodeTransformer):
+            def visit_Call(s2, node):
+                if node is call:
+                    return res
+                return s2.generic_visit(node)
+        st.test = _Swap().visit(st.test)
+        return stmts + [st]
+
+    def expressions(self, st, cls, qual, nested):
+        """Substitute single-expression helpers inside st's own
+        expressions (not inside nested statement lists)."""
+        inl = self
+
+        class _Sub(ast.NodeTransformer):
+            def visit_Call(s2, node):
+                node = s2.generic_visit(node)
+                fn, is_method = inl.target(node, cls, qual, nested)
+                if fn is None:
+                    return node
+                e = inl.single_expr(fn)
+                if e is None or not _inlinable(fn):
+                    return node
+                params = [a.arg for a in fn.args.args]
+                pos = params[1:] if is_method else params
+                if node.keywords or len(node.args) != len(pos):
+                    return node
+                reads = {}
+                for x in ast.walk(e):
+                    if isinstance(x, ast.Name):
+                        reads[x.id] = reads.get(x.id, 0) + 1
+                subst = {}
+                for p, a in zip(pos, node.args):
+                    if not _simple_arg(a) and reads.get(p, 0) != 1:
+                        return node
+                    subst[p] = a
+                # names bound inside the expression (comprehensions) must
+                # not clash: leave such helpers alone
+                if any(isinstance(x, (ast.comprehension, ast.Lambda,
+                                      ast.NamedExpr)) for x in ast.walk(e)):
+                    return node
+                inl.count += 1
+                return _Rename(subst, {}).visit(copy.deepcopy(e))
+
+            def visit_FunctionDef(s2, node):
+                return node
+            visit_Lambda = visit_ClassDef = visit_FunctionDef
+        for fld, val in ast.iter_fields(st):
+            if fld in ('body', 'orelse', 'finalbody', 'handlers', 'cases'):
+                continue
+            if isinstance(val, ast.AST):
+                setattr(st, fld, _Sub().visit(val))
+            elif isinstance(val, list):
+                setattr(st, fld, [_Sub().visit(v) if isinstance(v, ast.AST)
+                                  else v for v in val])
+
+
+def inline_new_helpers(tree, modshort):
+    """-> number of call sites inlined"""
+    if os.environ.get('DTVERIF_NO_INLINE'):
+        return 0
+    try:
+        inv = inventory()
+    except OSError:
+        return 0
+    n = _Inliner(tree, modshort, inv).run()
+    if n:
+        ast.fix_missing_locations(tree)
+    return n
